@@ -3,9 +3,11 @@
 
 mod agentdef;
 mod oracle;
+mod persist;
 mod remote;
 mod run;
 mod script;
+mod store;
 
 use common::{json, CaseOut, Json, Rng, Session};
 use swimos_api::persistence::StoreDisabled;
@@ -20,7 +22,7 @@ fn focus_for(prop: &str) -> Vec<(Focus, &'static str, u64)> {
         "C02" => vec![(Focus::Map, "map-conversations", 80), (Focus::Sync, "sync-conversations", 20)],
         "C03" => vec![(Focus::Sync, "sync-conversations", 70), (Focus::Map, "map-conversations", 30)],
         "C04" => vec![(Focus::Protocol, "protocol-conversations", 60), (Focus::Sync, "sync-conversations", 20), (Focus::Value, "value-conversations", 20)],
-        "C14" => vec![(Focus::Supply, "supply-conversations", 100)],
+        "C14" => vec![(Focus::Supply, "supply-conversations", 15), (Focus::Commands, "agent-command-conversations", 85)],
         "C20" => vec![(Focus::Links, "link-conversations", 100)],
         _ => vec![(Focus::Protocol, "protocol-conversations", 100)],
     }
@@ -39,8 +41,23 @@ fn run_one(focus: Focus, len: usize, rng: &mut Rng, out: &mut CaseOut, reporting
 }
 
 fn run_script(cfg: &script::Config, script: &[Step], rng: &mut Rng, out: &mut CaseOut, reporting: bool) {
-    let opts = run::Options { reporting, ..Default::default() };
-    let obs = run::run_case::<StoreDisabled>(cfg, script, &opts, rng, None, vec![]);
+    // command targets: two lanes behind one remote host (they share a channel) and one local lane
+    let targets: Vec<(Option<String>, String, String)> = vec![
+        (Some("ws://hosta:9001".to_string()), "/t0".to_string(), "in".to_string()),
+        (Some("ws://hosta:9001".to_string()), "/t1".to_string(), "in".to_string()),
+        (None, "/t2".to_string(), "in".to_string()),
+    ];
+    let opts = run::Options {
+        reporting,
+        target_caps: vec![*rng.pick(&[4usize, 16, 64, 4096]), *rng.pick(&[8usize, 64, 4096])],
+        target_pace: vec![remote::Pace { chunk: *rng.pick(&[1usize, 3, 64, 4096]), yields: *rng.pick(&[0u32, 2, 20]) }],
+        ..Default::default()
+    };
+    let obs = run::run_case::<StoreDisabled>(cfg, script, &opts, rng, None, targets.clone());
+    let (cmd_recv, cmd_superseded, shared) = oracle::check_agent_commands(&obs, &targets, out);
+    out.add("agent-commands-forwarded", cmd_recv);
+    out.add("agent-commands-superseded", cmd_superseded);
+    out.add("command-channels-shared-by-two-targets", shared);
     if !obs.stuck.is_empty() {
         out.inconclusive(format!("stuck: {}", obs.stuck[0]));
     }
@@ -93,6 +110,10 @@ fn run_script(cfg: &script::Config, script: &[Step], rng: &mut Rng, out: &mut Ca
                 eprintln!("{l}");
             }
         }
+        for f in &obs.target_frames {
+            eprintln!(" target-frame t={} ch={} key={} {}{} {:?}", f.ticket, f.target, f.key, f.node, f.lane, f.body);
+        }
+        eprintln!(" sent by agent: {:?}", obs.rec.sent);
         eprintln!(" value history: {:?}", obs.rec.value_hist);
         eprintln!(" map history: {:?}", obs.rec.map_hist);
         eprintln!(" quiescent {:?} stop {:?} finished {:?} result {:?} stuck {:?}", obs.quiescent, obs.stop_requested, obs.agent_finished, obs.agent_result, obs.stuck);
@@ -124,15 +145,40 @@ fn main() {
                 1 => vec![Step::Attach(0), Step::Sync(0, "m3".into()), Step::Settle, c(0, "cmd", "@cmd{id:1,acts:{@clr{lane:2}}}"), Step::Settle, Step::Sync(0, "m3".into()), Step::Settle],
                 2 => vec![Step::Attach(0), Step::Sync(0, "m1".into()), Step::Settle, c(0, "m1", "@remove(key:k2)"), Step::Settle, Step::Sync(0, "m1".into()), Step::Settle],
                 3 => vec![Step::Attach(0), Step::Sync(0, "m1".into()), Step::Settle, c(0, "cmd", "@cmd{id:1,acts:{@rem{lane:0,k:0}}}"), Step::Settle, Step::Sync(0, "m1".into()), Step::Settle],
+                5 => vec![Step::Attach(0), c(0, "cmd", "@cmd{id:1,acts:{@send{target:2,v:4294967297,mode:2},@send{target:2,v:4294967298,mode:2}}}"), Step::Settle, c(0, "cmd", "@cmd{id:2,acts:{@send{target:2,v:4294967299,mode:2}}}"), Step::Settle],
+                6 => vec![Step::Attach(0), c(0, "cmd", "@cmd{id:1,acts:{@send{target:2,v:4294967297,mode:0},@send{target:2,v:4294967298,mode:2}}}"), Step::Settle, c(0, "cmd", "@cmd{id:2,acts:{@send{target:2,v:4294967299,mode:0}}}"), Step::Settle],
+                7 => vec![Step::Attach(0), c(0, "cmd", "@cmd{id:1,acts:{@send{target:0,v:4294967297,mode:0},@send{target:1,v:4294967298,mode:0}}}"), Step::Settle, c(0, "cmd", "@cmd{id:2,acts:{@send{target:0,v:4294967299,mode:0},@send{target:1,v:4294967300,mode:0}}}"), Step::Settle],
                 _ => vec![Step::Attach(0), Step::Sync(0, "m1".into()), Step::Settle, c(0, "cmd", "@cmd{id:1,acts:{@upd{lane:0,k:0,v:4294967297}}}"), Step::Settle, Step::Sync(0, "m1".into()), Step::Settle],
             };
             run_script(&cfg, &script, rng, out, false);
         });
         s.finish();
     }
+    if prop == "C05" {
+        let n = s.args.budget(8_000, 300_000);
+        let thorough = s.args.thorough();
+        s.part(
+            "persist-and-restart",
+            "seeded conversation over persistent and transient lanes/stores against a recording NodePersistence, ended by clean stop or by a crash (all tasks dropped) at a seeded step; then a fresh agent instance is started against the store rebuilt at cut points of the operation log (all of them in the thorough tier and for short logs, a seeded third otherwise); non-trivial when >= 3 store operations and >= 3 restarts; distinct by the operation log",
+            false,
+            n,
+            |_i, rng, out| {
+                let sum = persist::run_case_c05(rng, out, if thorough { 40 } else { 30 }, thorough);
+                out.add("store-operations", sum.store_ops);
+                out.add("restarts-at-cut-points", sum.cut_points);
+                out.add("frames-checked-against-store-log", sum.frames_checked);
+                out.count(&format!("first-incarnation-ended-by-{}", sum.mode));
+            },
+        );
+        s.finish();
+    }
     let total = s.args.budget(40_000, 2_000_000);
     let len_max = if s.args.thorough() { 60 } else { 40 };
+    let only = s.args.extra.get("only").cloned();
     for (focus, name, share) in focus_for(&prop) {
+        if only.as_ref().map_or(false, |o| !name.starts_with(o.as_str())) {
+            continue;
+        }
         let n = (total * share / 100).max(1);
         s.part(
             name,
